@@ -41,6 +41,7 @@ def gen_case(rnd, tier, index):
     for feat in ('ranges', 'names', 'cse', 'intersection', 'multicolon', 'rowcol', 'unbounded'):
         if rnd.random() < 0.6:
             knobs[feat] = True
+    knobs['computed_refs'] = rnd.random() < 0.25
     spec = wbgen.generate(rnd, knobs)
     cfg = c01.draw_cfg(rnd, spec, tier)
     if cfg.get('origin') != 'xlsx' and rnd.random() < 0.15:
@@ -167,7 +168,7 @@ def check_eval(run, i, op, target, expected, out):
             anc = set()
         else:
             anc = nx.ancestors(g, ynode)
-        for x in dag.ancestors(y):
+        for x in written_ancestors(dag, y):
             run.count('ancestor-pairs-checked')
             if restarted:
                 run.nontrivial = True
@@ -183,6 +184,27 @@ def check_eval(run, i, op, target, expected, out):
                                 'missing', detail={'input': x, 'cell': y})
                     return
                 run.count('probe:dag-ancestor-missing-but-no-influence-shown')
+
+
+def is_computed(cell):
+    f = cell.get('f', '')
+    return f.startswith('=OFFSET(') or f.startswith('=INDIRECT(')
+
+
+def written_ancestors(dag, y):
+    """the cells that can influence y through written references: what a computed reference
+    (=OFFSET(..), =INDIRECT("..")) points to is not claimed to be a precedent, only what such
+    a formula names"""
+    seen, todo = [], [y]
+    while todo:
+        n = todo.pop()
+        c = dag.cell.get(n, {})
+        nxt = [a for a in c.get('d', ()) if a != '@self'] if is_computed(c) else dag.prec.get(n, ())
+        for a in nxt:
+            if a in dag.cell and a not in seen and a != y:
+                seen.append(a)
+                todo.append(a)
+    return seen
 
 
 def covered_by_range(anc, x):
